@@ -120,8 +120,8 @@ impl Handler {
         Ok(self.ret().mixed)
     }
     #[allow(clippy::too_many_arguments)]
-    fn do_aliases(&self, p: StrAlias, qa: OptStrAlias, qc: Color, qoa: OptAliasOfAlias, hu: UuidAlias, qd: f64, qb: bool, qsl: SafeLong, qdt: Option<DateTime<Utc>>, qbt: Option<BearerToken>, hc: Option<ColorAlias>) -> Result<Vec<String>, Error> {
-        self.record(format!("aliases(p={:?}, qa={:?}, qc={:?}, qoa={:?}, hu={:?}, qd={:?}, qb={:?}, qsl={:?}, qdt={:?}, qbt={:?}, hc={:?})", p, qa, qc, qoa, hu, qd.to_bits(), qb, qsl, qdt, qbt.as_ref().map(|t| t.as_str().to_string()), hc));
+    fn do_aliases(&self, p: StrAlias, qa: OptStrAlias, qc: Color, qoa: OptAliasOfAlias, hu: UuidAlias, qd: DblAlias, qb: bool, qsl: SafeLong, qdt: Option<DateTimeAlias>, qbt: Option<BearerToken>, hc: Option<ColorAlias>) -> Result<Vec<String>, Error> {
+        self.record(format!("aliases(p={:?}, qa={:?}, qc={:?}, qoa={:?}, hu={:?}, qd={:?}, qb={:?}, qsl={:?}, qdt={:?}, qbt={:?}, hc={:?})", p, qa, qc, qoa, hu, qd.0.to_bits(), qb, qsl, qdt.map(|d| d.0), qbt.as_ref().map(|t| t.as_str().to_string()), hc));
         Ok(self.ret().aliases)
     }
     fn do_body(&self, auth_: BearerToken, body: Simple) -> Result<Simple, Error> {
@@ -183,7 +183,7 @@ impl VerifService<RemoteBody, Vec<u8>> for Handler {
     fn mixed(&self, auth_: BearerToken, path_str: String, path_int: i32, type_: ResourceIdentifier, query_one: String, query_opt: Option<i32>, query_list: Vec<i32>, query_set: BTreeSet<String>, safe_header: String, opt_header: Option<i32>) -> Result<String, Error> {
         self.do_mixed(auth_, path_str, path_int, type_, query_one, query_opt, query_list, query_set, safe_header, opt_header)
     }
-    fn aliases(&self, p: StrAlias, qa: OptStrAlias, qc: Color, qoa: OptAliasOfAlias, hu: UuidAlias, qd: f64, qb: bool, qsl: SafeLong, qdt: Option<DateTime<Utc>>, qbt: Option<BearerToken>, hc: Option<ColorAlias>) -> Result<Vec<String>, Error> {
+    fn aliases(&self, p: StrAlias, qa: OptStrAlias, qc: Color, qoa: OptAliasOfAlias, hu: UuidAlias, qd: DblAlias, qb: bool, qsl: SafeLong, qdt: Option<DateTimeAlias>, qbt: Option<BearerToken>, hc: Option<ColorAlias>) -> Result<Vec<String>, Error> {
         self.do_aliases(p, qa, qc, qoa, hu, qd, qb, qsl, qdt, qbt, hc)
     }
     fn body(&self, auth_: BearerToken, body: Simple) -> Result<Simple, Error> {
@@ -232,7 +232,7 @@ impl AsyncVerifService<RemoteBody, Vec<u8>> for Handler {
     async fn mixed(&self, auth_: BearerToken, path_str: String, path_int: i32, type_: ResourceIdentifier, query_one: String, query_opt: Option<i32>, query_list: Vec<i32>, query_set: BTreeSet<String>, safe_header: String, opt_header: Option<i32>) -> Result<String, Error> {
         self.do_mixed(auth_, path_str, path_int, type_, query_one, query_opt, query_list, query_set, safe_header, opt_header)
     }
-    async fn aliases(&self, p: StrAlias, qa: OptStrAlias, qc: Color, qoa: OptAliasOfAlias, hu: UuidAlias, qd: f64, qb: bool, qsl: SafeLong, qdt: Option<DateTime<Utc>>, qbt: Option<BearerToken>, hc: Option<ColorAlias>) -> Result<Vec<String>, Error> {
+    async fn aliases(&self, p: StrAlias, qa: OptStrAlias, qc: Color, qoa: OptAliasOfAlias, hu: UuidAlias, qd: DblAlias, qb: bool, qsl: SafeLong, qdt: Option<DateTimeAlias>, qbt: Option<BearerToken>, hc: Option<ColorAlias>) -> Result<Vec<String>, Error> {
         self.do_aliases(p, qa, qc, qoa, hu, qd, qb, qsl, qdt, qbt, hc)
     }
     async fn body(&self, auth_: BearerToken, body: Simple) -> Result<Simple, Error> {
